@@ -174,6 +174,9 @@ def commentOf (cur : Option Str) : List Str → Option Str
     | '#' :: c => commentOf (addComment cur (strip c)) ls
     | _ => commentOf cur ls
 
+/-- a CRLF file: a `"\r"` at the end of every line that does not open a multi-line string -/
+def addCR (l : Str) : Str := if isOpener (strip l) then l else l ++ ['\r']
+
 /-! ### from the file content -/
 
 /-- `content.split("\n")` -/
